@@ -39,7 +39,10 @@ mut("unknown_call_path", 1, lambda e: e.__setitem__("via", "magic"))
 mut("int_dtype_on_real_data", 5, lambda e: e.__setitem__("dtype", "int64"))
 mut("unknown_dtype", 1, lambda e: e.__setitem__("dtype", "float16"))
 mut("measured_tails_not_monotone", 5, lambda e: e["tails"][0].__setitem__(2, e["tails"][0][1] + 5))
-mut("known_bad_combination", 1, lambda e: (e.__setitem__("svd", "symeig_svd"), e.__setitem__("pow2", -66)))
+mut("symeig_gram_not_representable", 1, lambda e: (e.__setitem__("svd", "symeig_svd"), e.__setitem__("pow2", 650)))
+mut("single_precision_error_on_double_input", 2, lambda e: e["out"].__setitem__("rel_q", 200000))      # 2e-7: float32-level
+e32 = copy.deepcopy(good[2]); e32["id"] = "good_float32_level_error_on_float32_input"; e32["dtype"] = "float32"; e32["out"]["rel_q"] = 200000
+good.append(e32); evs.append(e32)
 rej = chk.validate("SVDDecompTrace", evs, env={"C09_KNOWN_BAD": "exclude"})
 for r in sorted(rej, key=str): print(r[:2])
 print("machinery:", chk.machinery)
